@@ -85,7 +85,7 @@ class Check:
 
     def struct(self, label, ok, detail="", meta=None):
         meta = meta or {}
-        key = (label, bool(ok), str(meta.get("site")), str(meta.get("attr")), str(meta.get("cell")), detail if not ok else "")
+        key = (label, bool(ok), str(meta.get("site")), str(meta.get("attr")), str(meta.get("cell")), str(meta.get("when")), detail if not ok else "")
         if key in self._struct_seen:
             self._struct_seen[key] += 1
             return
@@ -216,7 +216,7 @@ class Check:
         for label, ok, detail, meta in self.structural:
             if ok:
                 continue
-            skey = (label, str(meta.get("site")), str(meta.get("attr")), str(meta.get("cell")))
+            skey = (label, str(meta.get("site")), str(meta.get("attr")), str(meta.get("cell")), str(meta.get("when")))
             if skey in seen_struct:
                 continue
             seen_struct.add(skey)
